@@ -882,6 +882,17 @@ def _swap(n):
   return m
 
 
+def m_modf(I_, args, kws, st, ctx, k, node):
+  axiom("math.modf(x) = (x - trunc(x), trunc(x)) over the reals")
+  (v,) = args
+  if not is_sym(v):
+    import math
+    return k(st, math.modf(v))
+  x = zreal(v)
+  ip = z3.If(x >= 0, z3.ToReal(z3.ToInt(x)), -z3.ToReal(z3.ToInt(-x)))
+  return k(st, (x - ip, ip))
+
+
 def m_time(I_, args, kws, st, ctx, k, node):
   axiom("time.time() returns a real number; successive calls are non-decreasing")
   t = fresh_real("now")
@@ -935,6 +946,8 @@ _TABLE = {
   _socket.inet_aton: m_inet_aton, _socket.inet_ntoa: m_inet_ntoa,
   _time.time: m_time,
 }
+import math as _math
+_TABLE[_math.modf] = m_modf
 _UNION_AWARE.update([builtins.isinstance, builtins.len, builtins.type, builtins.bool, builtins.hasattr,
                      builtins.getattr, builtins.setattr, builtins.callable, builtins.int, builtins.str,
                      builtins.bytes, builtins.hash, builtins.id, builtins.repr])
